@@ -226,7 +226,9 @@ def ctor_scenario(twin=False):
                     src, m, k, b1, b2 = line(src_kw=dict(inter_arrival_time=neg))
                     b1.connect(src, m); b2.connect(m, k)
                 elif kind == "nonblocking-source-zero-iat":
-                    Source(env, "S", inter_arrival_time=[0, 0.0][ctx.choice(2, "zero")], blocking=False)
+                    # inside a complete, otherwise valid line: the zero inter-arrival time must be the only reason for a rejection
+                    src, m, k, b1, b2 = line(src_kw=dict(inter_arrival_time=[0, 0.0][ctx.choice(2, "zero")], blocking=False))
+                    b1.connect(src, m); b2.connect(m, k)
                 elif kind == "machine-without-in-edge":
                     src, m, k, b1, b2 = line()
                     b2.connect(m, k)
